@@ -47,7 +47,7 @@ MANDATORY_LABELS = {
 TOKEN_RE = re.compile(r"[A-Za-z]|[-+]?(?:\d*\.)?\d+(?:[eE][-+]?\d+)?|[\s,]+|.", re.S)
 STRAY = ["x", "#", "e", "E", ".", "-", "+", "--", "..", "1e", "e5", "Y", "b", "(", "'", "\"", "&", "0x1", "nan", "inf", "1.", "%"]
 CONTROL = ["\x00", "\x01", "\x07", "\x0b", "\x1b", "\x7f", "\x85", "\xa0"]
-NONASCII = ["é", "−", "½", "١", "１", "　", "\U0001d7ce", " ", "﻿"]
+NONASCII = ["é", "−", "½", "١", "１", "　", "\U0001d7ce", " ", "﻿", "\u017f", "\u212a", "\u0131", "\u00df", "\ufb06", "\u1e9e"]  # + every character whose case mapping lands on ASCII letters (long s -> s, Kelvin sign -> k, ...)
 
 
 def truncation_cases(both=True):
@@ -79,7 +79,7 @@ def bare_cases():
 def decode_mutation(d):
     text, offsets = gen.path_text(d, min_cmds=1, max_cmds=8)
     toks = TOKEN_RE.findall(text)
-    fault = d.choice(["truncate", "delete", "duplicate", "replace", "stray", "strip-operands", "no-move", "flag", "nonascii", "control", "stray", "delete"])
+    fault = d.choice(["truncate", "delete", "duplicate", "replace", "stray", "strip-operands", "no-move", "flag", "nonascii", "nonascii", "control", "stray", "delete"])
     n = len(toks)
     i = d.below(n) if n else 0
     if fault == "truncate":
